@@ -613,3 +613,100 @@ Print Assumptions C01_src_entry_from_other_class.
 Print Assumptions C01_src_entry_clone.
 Print Assumptions C01_src_entry_clone_bindings.
 Print Assumptions C01_src_entry_nonvacuous.
+
+(* ------------------------------------------------------------------ entry points, continued
+   (1) from_other_class given a MAPPING and an ignore list: the constructor of the class on every field of the class
+       that is neither ignored nor overridden (mapping.get(k)), then the overrides; without an ignore list it is the
+       entry EFromMapping.  (2) shallow_clone_with_overrides as an equality with the entry EClone ([clone_kwargs] lists
+       the keywords in the source's order {**fields, **overrides}).  (3) The copy entries on generated text: __copy__ /
+       __deepcopy__ of Gen/EqHashSrc.v return an object whose public part is what ECopy / EDeepCopy return; EPickle is
+       [pickle_rt], which C11_src_getstate / C11_src_setstate / C11_src_unpickle tie to the source.  (4) Re-validation:
+       an assignment on an instantiated instance through the source's __setattr__ and the descriptor hand-over keeps a
+       valid instance valid (or raises and changes nothing). *)
+From TP Require Import Struct.EqHash Struct.EqHashSrcProofs Gen.EqHashSrc Struct.CopySrcEntryProofs
+     Struct.Mutate Struct.MutateProofs Struct.StructGuardProofs Struct.MutationSrcProofs.
+
+Theorem C01_src_entry_from_mapping :
+  forall (re_match : N -> pystr -> bool) (e : env) (ct : classdef) (src over : kwargs) (ig : list pystr) (s : PyOpsInit.istate),
+    find_class e (c_name ct) = Some ct -> fields_ok ct = true ->
+    has_dup (map fst over) = false -> vals_defined over = true -> vals_defined src = true ->
+    entry_view (Structure__from_other_class (entry_heap e ct ct) (entry_world re_match e ct ct) (ref (cobj (c_name ct)))
+                  (kw_dict src) (ig_val ig) (kw_dict over) s) =
+    construct re_match e ct (from_mapping_kwargs_ig ct src over ig).
+Proof. exact generated_from_mapping_is_entry. Qed.
+
+Theorem C01_src_entry_from_mapping_entry :
+  forall (re_match : N -> pystr -> bool) (e : env) (ct : classdef) (src over : kwargs) (cur : pyval) (s : PyOpsInit.istate),
+    find_class e (c_name ct) = Some ct -> fields_ok ct = true ->
+    has_dup (map fst over) = false -> vals_defined over = true -> vals_defined src = true ->
+    entry_view (Structure__from_other_class (entry_heap e ct ct) (entry_world re_match e ct ct) (ref (cobj (c_name ct)))
+                  (kw_dict src) PNone (kw_dict over) s) =
+    run_entry re_match e cur (EFromMapping (c_name ct) src over).
+Proof. exact generated_from_mapping_is_run_entry. Qed.
+
+Theorem C01_src_entry_clone_entry :
+  forall (re_match : N -> pystr -> bool) (e : env) (cd : classdef) (a : attrs) (over : kwargs),
+    find_class e (c_name cd) = Some cd ->
+    names_ok a = true -> vals_defined a = true -> defaults_defined cd = true -> fields_ok cd = true ->
+    entry_view (Structure__shallow_clone_with_overrides (entry_heap e cd cd) (entry_world re_match e cd cd) (kw_dict over) (inst_state a)) =
+    run_entry re_match e (PStruct (c_name cd) a) (EClone over).
+Proof. exact generated_clone_is_entry. Qed.
+
+Theorem C01_src_entry_copy :
+  forall (re_match : N -> pystr -> bool) (e : env) (W : PyOpsEqHash.world) (cd : classdef) (a : attrs) (t : option pyval),
+    find_class e (c_name cd) = Some cd -> EqHashSrcProofs.keys_ok (inst_of (c_name cd) a) = true ->
+    exists y, Src_Structure_copy W (inst_obj (inst_of (c_name cd) a) t) = Ok (inst_obj y t) /\
+              run_entry re_match e (PStruct (c_name cd) a) ECopy = Ok (inst_public y).
+Proof. exact generated_copy_is_entry. Qed.
+
+Theorem C01_src_entry_deepcopy :
+  forall (re_match : N -> pystr -> bool) (e : env) (W : PyOpsEqHash.world) (cd : classdef) (a : attrs) (t : option pyval) (memo : pyval),
+    find_class e (c_name cd) = Some cd -> EqHashSrcProofs.keys_ok (inst_of (c_name cd) a) = true ->
+    alist_has a n_skip_validation = false ->
+    PyOpsEqHash.class_field (PyOpsEqHash.w_heap W) (c_name cd) n_immutable = None ->
+    exists y, Src_Structure_deepcopy W (inst_obj (inst_of (c_name cd) a) t) memo = Ok (inst_obj y t) /\
+              run_entry re_match e (PStruct (c_name cd) a) EDeepCopy = Ok (inst_public y).
+Proof. exact generated_deepcopy_is_entry. Qed.
+
+Theorem C01_src_entry_pickle :
+  forall (re_match : N -> pystr -> bool) (e : env) (cd : classdef) (a : attrs),
+    find_class e (c_name cd) = Some cd ->
+    run_entry re_match e (PStruct (c_name cd) a) EPickle = Ok (inst_public (pickle_rt cd (inst_of (c_name cd) a))).
+Proof. exact pickle_entry_is_pickle_rt. Qed.
+
+Theorem C01_src_mutation_revalidates :
+  forall (re_match : N -> pystr -> bool) (e : env) (c : classdef) (a : attrs) (n : pystr) (v : pyval) (a' : attrs) (r : outcome),
+    ordinary_name n = true -> hook_wf c = true -> struct_ok re_match e c a = true ->
+    value_safe re_match e c a (SetAttr n v) = true ->
+    src_assign re_match e c a n v = (a', r) ->
+    (r = Done -> struct_ok re_match e c a' = true) /\ (forall x, r = Raised x -> a' = a).
+Proof. exact src_mutation_revalidates. Qed.
+
+Example C01_src_entry_copy_nonvacuous :
+  EqHashSrcProofs.keys_ok (inst_of (s2p "Point3") [(s2p "x", PNum (NInt 1)); (s2p "z", PBool true); (s2p "extra", PStr (s2p "e"))]) = true.
+Proof. vm_compute. reflexivity. Qed.
+
+Print Assumptions C01_src_entry_from_mapping.
+Print Assumptions C01_src_entry_from_mapping_entry.
+Print Assumptions C01_src_entry_clone_entry.
+Print Assumptions C01_src_entry_copy.
+Print Assumptions C01_src_entry_deepcopy.
+Print Assumptions C01_src_entry_pickle.
+Print Assumptions C01_src_mutation_revalidates.
+
+(* from_other_class given an instance and an ignore list; without one it is the entry EFromOther (from_other_ig_nil) *)
+Theorem C01_src_entry_from_other_ignore :
+  forall (re_match : N -> pystr -> bool) (e : env) (cd ct : classdef) (a : attrs) (over : kwargs) (ig : list pystr),
+    find_class e (c_name cd) = Some cd -> find_class e (c_name ct) = Some ct ->
+    names_ok a = true -> vals_defined a = true -> defaults_defined cd = true -> fields_ok ct = true ->
+    has_dup (map fst over) = false -> vals_defined over = true ->
+    entry_view (Structure__from_other_class (entry_heap e cd ct) (entry_world re_match e cd ct) (ref (cobj (c_name ct)))
+                  (ref (s2p "self")) (ig_val ig) (kw_dict over) (inst_state a)) =
+    construct re_match e ct (from_other_kwargs_ig cd ct a over ig).
+Proof. exact generated_from_other_ignore. Qed.
+
+Theorem C01_from_other_kwargs_ig_nil : forall cd ct a over, from_other_kwargs_ig cd ct a over [] = from_other_kwargs cd ct a over.
+Proof. exact from_other_ig_nil. Qed.
+
+Print Assumptions C01_src_entry_from_other_ignore.
+Print Assumptions C01_from_other_kwargs_ig_nil.
